@@ -23,7 +23,9 @@ CLAIMED['C11'] = dict(text='RT.tla models ClosestNodes::add (IP rule + secure-fi
              ref='DESIGN.md section 5 C11', technique='TLA+ RT module: TLC exhaustive MC + TLC trace validation of recorded public-API operations')
 CLAIMED['C12'] = dict(text='RT.tla models add / remove / re-key / staleness in the order of the code; TLC checks NoSelf, UniqueIds, BucketMatchesDistance, BucketSize, IpRule in every reachable state and EvictOnlyStaleHead for every possible add from every state; the same invariants are then evaluated by TLC on the OBSERVED projection of the real table after every operation of seeded random sequences (shared IPs, secure/insecure ids, clustered ids, clock across the 15 min boundary), with the model transition checked for conformance.',
              ref='DESIGN.md section 5 C12', technique='TLA+ RT module: TLC exhaustive MC + TLC trace validation of recorded public-API operations')
-NOTE = {'C11': RT_NOTE, 'C12': RT_NOTE, 'C19': 'Trusted base: TLC, CommunityModules Bitwise; the harness char->code point conversion. The 2^28 sweep is a Rust comparison against a reference that TLC validates on sampled vectors, not a TLC verdict.', 'C03': SERVER_NOTE, 'C04': SERVER_NOTE, 'C15': SERVER_NOTE + ' CRC32C token forgery by linearity is out of scope (design matter).'}
+CLAIMED['C16'] = dict(text='MostRecent.tla models the fold over the delivered stream; TLC checks the L1 formula for every ordered sub-sequence (responses may be lost) of seq patterns with gaps, duplicates and ties, and generates those arrival sequences; each is executed on a real threaded node through the real API wrappers (async flavour polled by hand, sync flavour on a helper thread) against fake storage peers, and TLC judges the returned item against the observed arrival order.',
+             ref='DESIGN.md section 5 C16', technique='TLA+ MostRecent module: TLC exhaustive MC + TLC-generated arrival orders replayed through the real API + TLC trace validation')
+NOTE = {'C16': 'Trusted base: TLC; the lock-step simulator (production actor::run thread); fake peers signing authentic items; arrival order read from the simulator datagram log.', 'C11': RT_NOTE, 'C12': RT_NOTE, 'C19': 'Trusted base: TLC, CommunityModules Bitwise; the harness char->code point conversion. The 2^28 sweep is a Rust comparison against a reference that TLC validates on sampled vectors, not a TLC verdict.', 'C03': SERVER_NOTE, 'C04': SERVER_NOTE, 'C15': SERVER_NOTE + ' CRC32C token forgery by linearity is out of scope (design matter).'}
 NA_REASON = {}
 
 def main():
